@@ -219,6 +219,9 @@ def _tracks(draw, ctx):
                 order[lane] = pos
             note = {"tick": t, "mask": prev["mask"], "lens": new_lens, "tap": tap, "forced": forced,
                     "lane_order": order}
+        if note["mask"] and (note["tap"] is not None or note["forced"] is not None) and draw(st.integers(0, 2)) == 0:
+            # the flag lines before / between the lane lines of the chord (every line names its own lane)
+            note["flag_pos"] = [draw(st.integers(0, 5)), draw(st.integers(0, 5))]
         notes.append(note)
     phrases = [[t, min(max_tick - t, ln)] for t, ln in
                sorted(draw(st.lists(st.tuples(tick_st, st.integers(0, 2000)), max_size=2)))]
